@@ -14,7 +14,7 @@ import (
 func init() {
 	register(&propDef{
 		ID:          "C08",
-		Explanation: "Equality of the generated programs for all spellings is not decided. Decides three agreement clauses between parser, formatter and generator: R1 decode/encode symmetry — every parser-node field that the parser fills with a decoded value (html.UnescapeString) is re-encoded (html.EscapeString) wherever a formatter method (Write/String of the node) emits it; R2 classifier agreement — over the finite domain {node kinds} × {block element?} × {indented children?}, evaluated from the two type switches: wherever the formatter's block classifier (a forced line break before the node) is true, the generator's inline-or-text classifier (whitespace before the node is rendered) must be false, otherwise formatting inserts a space into the rendered output; R3 field coverage — every field of a parser node type that the generator reads in order to emit code is also read by that node's own formatter methods (a field the formatter drops is lost from the formatted file); R4 content fields (string fields of parser nodes outside Go expressions that the generator reads, directly or through node methods) are written back verbatim by the formatter: never assigned a non-constant value, never passed through a string-transforming strings.* call in a function that writes (predicates that fold case before a lookup are not writers), and no write is guarded by a test of such a field's text (strings.* / len), which would add bytes next to the content for some contents only; R5 every child list taken from a parser node is stripped of whitespace-only nodes before the generator renders it (the formatter adds and removes such nodes freely). R6 the import rewriter that templ fmt runs never inserts an import without its name (no astutil.AddImport; name and path of every Add/DeleteNamedImport come from one import spec, and the splitter reads the spec's alias); R7 a boolean field the parser derives from a sibling string field (quote choice from the attribute value) is derived from that field's final value — no later assignment to the string without recomputing the flag; R9 a flag that records that a construct spans several lines is decided after the whitespace in front of the closing delimiter was consumed; R8 a formatter loop that writes the lines of a Go expression with an indentation prefix also has a path that writes a line unprefixed (continuation lines of raw string literals are part of the string's value). R10 the formatter command parses the text it read and its file readers return what they read (no CRLF/BOM/whitespace normalisation in front of the parser: a CRLF inside a raw Go string or <pre> is part of what is rendered). NOT decided: the formatter's whitespace decisions on concrete files, gofmt-level layout of embedded Go.",
+		Explanation: "Equality of the generated programs for all spellings is not decided. Decides three agreement clauses between parser, formatter and generator: R1 decode/encode symmetry — every parser-node field that the parser fills with a decoded value (html.UnescapeString) is re-encoded (html.EscapeString) wherever a formatter method (Write/String of the node) emits it; R2 classifier agreement — over the finite domain {node kinds} × {block element?} × {indented children?}, evaluated from the two type switches: wherever the formatter's block classifier (a forced line break before the node) is true, the generator's inline-or-text classifier (whitespace before the node is rendered) must be false, otherwise formatting inserts a space into the rendered output; R3 field coverage — every field of a parser node type that the generator reads in order to emit code is also read by that node's own formatter methods (a field the formatter drops is lost from the formatted file); R4 content fields (string fields of parser nodes outside Go expressions that the generator reads, directly or through node methods) are written back verbatim by the formatter: never assigned a non-constant value, never passed through a string-transforming strings.* call in a function that writes (predicates that fold case before a lookup are not writers), and no write is guarded by a test of such a field's text (strings.* / len), which would add bytes next to the content for some contents only; R5 every child list taken from a parser node is stripped of whitespace-only nodes before the generator renders it (the formatter adds and removes such nodes freely). R6 the import rewriter that templ fmt runs never inserts an import without its name (no astutil.AddImport; name and path of every Add/DeleteNamedImport come from one import spec, and the splitter reads the spec's alias); R7 a boolean field the parser derives from a sibling string field (quote choice from the attribute value) is derived from that field's final value — no later assignment to the string without recomputing the flag; R9 a flag that records that a construct spans several lines is decided after the whitespace in front of the closing delimiter was consumed; R8 a formatter loop that writes the lines of a Go expression with an indentation prefix also has a path that writes a line unprefixed (continuation lines of raw string literals are part of the string's value). R10 the formatter command parses the text it read and its file readers return what they read (no CRLF/BOM/whitespace normalisation in front of the parser: a CRLF inside a raw Go string or <pre> is part of what is rendered). NOT decided: the formatter's whitespace decisions on concrete files, gofmt-level layout of embedded Go. R11 `templ fmt` writes the formatter's output as it is (no text pass over the whole file); R12 inside <script> a Go block is written together with the text that followed it on every path.",
 		Assumptions: []string{"atoms of the classifiers (IsBlockElement, IndentChildren) are independent booleans"},
 		Trusted:     []string{"go/types", "x/tools go/packages"},
 		Run:         runC08,
@@ -154,6 +154,8 @@ func runC08(c *Ctx) {
 	importAliasesKept(c, "C08.R6")
 	derivedFlagsFresh(c, "C08.R7")
 	layoutFlagAfterWhitespace(c, "C08.R9")
+	formatterOutputWrittenAsIs(c, "C08.R11")
+	scriptGoCodeKeepsTrailingText(c, "C08.R12")
 	pp := c.pkg("parser/v2")
 	gp := c.pkg("generator")
 	pinfo := pp.TypesInfo
@@ -502,6 +504,10 @@ func fieldCoverage(c *Ctx, pp, gp *packages.Package) {
 
 // contentVerbatim: C08.R4 — string fields of parser nodes that are content (not Go code) and that the generator
 // reads must pass through the formatter untransformed: no assignment to them, no string-transforming call on them.
+// contentVerbatimRule: the rule id under which contentVerbatim reports (C08.R4; C09.R12 when run for idempotence: a
+// content text that the writer transforms depending on layout flags is written differently by the second run).
+var contentVerbatimRule = "C08.R4"
+
 func contentVerbatim(c *Ctx, pp, gp *packages.Package) {
 	pinfo, ginfo := pp.TypesInfo, gp.TypesInfo
 	// generator-read string fields, excluding fields of Expression (Go code, reformatted with go/format on purpose)
@@ -654,7 +660,7 @@ func contentVerbatim(c *Ctx, pp, gp *packages.Package) {
 									return true
 								}
 							}
-							c.viol("C08.R4", key, c.pos(par.Pos()), fmt.Sprintf("%s rewrites %s before writing it: the formatted file carries different content than the source, so the generated program differs", fd.Name.Name, k))
+							c.viol(contentVerbatimRule, key, c.pos(par.Pos()), fmt.Sprintf("%s rewrites %s before writing it: the formatted file carries different content than the source, so the generated program differs", fd.Name.Name, k))
 							return true
 						}
 					}
@@ -670,14 +676,14 @@ func contentVerbatim(c *Ctx, pp, gp *packages.Package) {
 						if sig, ok := fn.Type().(*types.Signature); ok && sig.Results().Len() == 1 {
 							rt := sig.Results().At(0).Type().String()
 							if rt == "string" || rt == "[]string" {
-								c.viol("C08.R4", key, c.pos(par.Pos()), fmt.Sprintf("%s passes %s through strings.%s before writing it: content (not Go code) must be written back verbatim", fd.Name.Name, k, fn.Name()))
+								c.viol(contentVerbatimRule, key, c.pos(par.Pos()), fmt.Sprintf("%s passes %s through strings.%s before writing it: content (not Go code) must be written back verbatim", fd.Name.Name, k, fn.Name()))
 								return true
 							}
 						}
 					}
 				}
 			}
-			c.ok("C08.R4", key, c.pos(se.Pos()), "used verbatim")
+			c.ok(contentVerbatimRule, key, c.pos(se.Pos()), "used verbatim")
 			return true
 		})
 	}
@@ -744,14 +750,14 @@ func contentVerbatim(c *Ctx, pp, gp *packages.Package) {
 			}
 			ord++
 			key := fmt.Sprintf("%s|content-test#%d:%s|guards-no-write", funcKey(pp, fd), ord, field)
-			c.check(!writes, "C08.R4", key, c.pos(is.Pos()), "the test of the field's text guards no write",
+			c.check(!writes, contentVerbatimRule, key, c.pos(is.Pos()), "the test of the field's text guards no write",
 				fmt.Sprintf("%s writes (%s) only when `%s` holds or fails: bytes are added next to the verbatim content %s depending on that content, so after formatting the parser returns a different %s for exactly those inputs (a script body is hashed into the function name, text is rendered)", fd.Name.Name, c.pos(wpos), types.ExprString(is.Cond), field, field))
 			return true
 		})
 	}
 	c.count("content_tests_in_formatter", nguard)
 	c.count("content_field_uses_in_formatter", nuse)
-	c.floor("C08.R4", 8)
+	c.floor(contentVerbatimRule, 8)
 }
 
 // whitespaceNodesNotRendered: C08.R5 — the formatter creates and removes whitespace-only nodes freely, so the generator
@@ -983,4 +989,234 @@ func isParamOf(info *types.Info, fd *ast.FuncDecl, id *ast.Ident) bool {
 		}
 	}
 	return false
+}
+
+// formatterOutputWrittenAsIs: C08.R11 — what `templ fmt` writes back is what the formatter (TemplateFile.Write)
+// produced. A text pass over the whole output (clearing "blank" lines, trimming, re-wrapping) does not know what it is
+// looking at: a white-space-only line inside a script template's body, a raw Go string or a <pre> is content, and
+// changing it changes the generated program (the script's hash-derived function name, the string's value).
+func formatterOutputWrittenAsIs(c *Ctx, rule string) {
+	p := c.pkg("cmd/templ/fmtcmd")
+	info := p.TypesInfo
+	// text-transforming: the library's, or a function of this package from text to text that calls one
+	local := map[types.Object]bool{}
+	for _, fd := range allFuncDecls(p) {
+		obj, _ := info.Defs[fd.Name].(*types.Func)
+		if obj == nil || fd.Body == nil {
+			continue
+		}
+		sig := obj.Type().(*types.Signature)
+		if sig.Params().Len() == 0 || sig.Results().Len() == 0 || !isStringOrBytes(sig.Results().At(0).Type()) {
+			continue
+		}
+		takesText := false
+		for i := 0; i < sig.Params().Len(); i++ {
+			if isStringOrBytes(sig.Params().At(i).Type()) {
+				takesText = true
+			}
+		}
+		if !takesText {
+			continue
+		}
+		callsFormatter := false
+		ast.Inspect(fd.Body, func(x ast.Node) bool {
+			if call, ok := x.(*ast.CallExpr); ok {
+				fn := calleeOf(info, call)
+				if fn != nil && fullName(fn) == pkgParser+".(TemplateFile).Write" {
+					callsFormatter = true
+				}
+				if fn != nil {
+					switch fullName(fn) {
+					case "bytes.(Buffer).String", "bytes.(Buffer).Bytes", "strings.(Builder).String":
+						return true
+					}
+				}
+				if textTransforming(fn) {
+					local[obj] = true
+				}
+			}
+			return true
+		})
+		if callsFormatter {
+			delete(local, obj) // the function that runs the formatter is not a pass over its output
+		}
+	}
+	transforming := func(fn *types.Func) bool {
+		if fn != nil {
+			switch fullName(fn) {
+			case "bytes.(Buffer).String", "bytes.(Buffer).Bytes", "strings.(Builder).String":
+				return false // reading the buffer the formatter wrote into
+			}
+		}
+		return textTransforming(fn) || fn != nil && local[fn]
+	}
+	n := 0
+	for _, fd := range allFuncDecls(p) {
+		if fd.Body == nil {
+			continue
+		}
+		// does this function run the formatter — itself, or through a function of the package that returns the result?
+		formats := false
+		var runsFormatter func(body *ast.BlockStmt, depth int) bool
+		runsFormatter = func(body *ast.BlockStmt, depth int) bool {
+			found := false
+			ast.Inspect(body, func(x ast.Node) bool {
+				if call, ok := x.(*ast.CallExpr); ok {
+					fn := calleeOf(info, call)
+					if fn != nil && fullName(fn) == pkgParser+".(TemplateFile).Write" {
+						found = true
+					}
+					if fn != nil && fn.Pkg() == p.Types && depth < 1 {
+						for _, g := range allFuncDecls(p) {
+							if info.Defs[g.Name] == types.Object(fn) && g.Body != nil && g != fd && runsFormatter(g.Body, depth+1) {
+								found = true
+							}
+						}
+					}
+				}
+				return !found
+			})
+			return found
+		}
+		formats = runsFormatter(fd.Body, 0)
+		if !formats {
+			continue
+		}
+		// the texts it hands to a writer: a function-typed value called with (name, text), os.WriteFile, io.WriteString …
+		ord := 0
+		ast.Inspect(fd.Body, func(x ast.Node) bool {
+			call, ok := x.(*ast.CallExpr)
+			if !ok || len(call.Args) < 2 {
+				return true
+			}
+			isSink := false
+			if fn := calleeOf(info, call); fn != nil {
+				switch fullName(fn) {
+				case "os.WriteFile", "io.WriteString":
+					isSink = true
+				}
+			} else {
+				// a writer held in a variable, a parameter or a field: func(name string, text string) error
+				var v *types.Var
+				switch f := ast.Unparen(call.Fun).(type) {
+				case *ast.Ident:
+					v, _ = info.ObjectOf(f).(*types.Var)
+				case *ast.SelectorExpr:
+					v, _ = info.ObjectOf(f.Sel).(*types.Var)
+				}
+				if v != nil {
+					if sig, isSig := v.Type().Underlying().(*types.Signature); isSig && sig.Params().Len() == 2 && isStringOrBytes(sig.Params().At(1).Type()) {
+						isSink = true
+					}
+				}
+			}
+			if !isSink {
+				return true
+			}
+			ord++
+			n++
+			text := call.Args[1]
+			bad := transformedOnTheWay(info, p.Types, fd.Body, text, transforming)
+			c.check(bad == "", rule, fmt.Sprintf("%s|written-text#%d|formatter-output-as-is", funcKey(p, fd), ord), c.pos(call.Pos()), "the text written is the formatter's output, untransformed",
+				fmt.Sprintf("%s passes the formatter's output through %s before writing it: a pass over the text of the whole file cannot tell layout from content (white space inside script bodies, raw strings, <pre>), so `templ fmt` changes what the template renders", fd.Name.Name, bad))
+			return true
+		})
+	}
+	c.count("formatted_text_sinks", n)
+	c.floor(rule, 1)
+}
+
+func isStringOrBytes(t types.Type) bool {
+	if isStringType(t) {
+		return true
+	}
+	if sl, ok := t.Underlying().(*types.Slice); ok {
+		if b, ok := sl.Elem().Underlying().(*types.Basic); ok && b.Kind() == types.Byte {
+			return true
+		}
+	}
+	return false
+}
+
+// scriptGoCodeKeepsTrailingText: C08.R12 — inside a <script> element the text after a `{{ … }}` block is JavaScript, not
+// layout: the parser keeps it in the block's TrailingSpace and the element writer must put it back on every path on
+// which it writes the block (handing the block to GoCode.Write, which lays out template-level blocks and never writes
+// that field, loses a line break between two statements or the blank inside a string).
+func scriptGoCodeKeepsTrailingText(c *Ctx, rule string) {
+	p := c.pkg("parser/v2")
+	info := p.TypesInfo
+	fd := findFunc(p, "ScriptElement", "Write")
+	if fd == nil {
+		c.viol(rule, "anchor-lost:ScriptElement.Write", "", "parser.ScriptElement.Write not found")
+		return
+	}
+	key := funcKey(p, fd)
+	n := 0
+	ast.Inspect(fd.Body, func(x ast.Node) bool {
+		rs, ok := x.(*ast.RangeStmt)
+		if !ok || !strings.HasSuffix(types.ExprString(rs.X), ".Contents") {
+			return true
+		}
+		den := &denum{info: info, pkg: p.Types, inits: map[types.Object]ast.Expr{}, limit: 5000, loopBody: true, opaqueLoops: true}
+		den.finish(den.run(rs.Body.List, []dstate{{env: map[types.Object]ast.Expr{}}}))
+		if den.undecided != "" {
+			c.undec(rule, key+"|go-block-trailing-text", c.pos(rs.Pos()), "ScriptElement.Write: the loop over the contents contains "+den.undecided)
+			return true
+		}
+		bad := ""
+		for _, pth := range den.paths {
+			if pth.Ret != nil {
+				continue // an error exit
+			}
+			writesBlock, writesTrailing := false, false
+			for _, st := range pth.Trace {
+				ast.Inspect(st, func(y ast.Node) bool {
+					call, ok := y.(*ast.CallExpr)
+					if !ok {
+						return true
+					}
+					mentions := func(field string) bool {
+						found := false
+						ast.Inspect(call, func(z ast.Node) bool {
+							if se, ok := z.(*ast.SelectorExpr); ok && se.Sel.Name == field {
+								found = true
+							}
+							return true
+						})
+						return found
+					}
+					takesWriter := false
+					for _, a := range call.Args {
+						if t := info.TypeOf(a); t != nil && isWriterLike(t) {
+							takesWriter = true
+						}
+					}
+					if !takesWriter {
+						return true
+					}
+					if mentions("GoCode") {
+						writesBlock = true
+					}
+					if mentions("TrailingSpace") {
+						writesTrailing = true
+					}
+					return true
+				})
+			}
+			if writesBlock {
+				n++
+				if !writesTrailing {
+					var took []string
+					for _, pc := range pth.Conds {
+						took = append(took, fmt.Sprintf("%s=%v", types.ExprString(pc.Expr), pc.Val))
+					}
+					bad = "on the path [" + strings.Join(took, ", ") + "] the Go block is written but its TrailingSpace is not"
+				}
+			}
+		}
+		c.check(bad == "" && n > 0, rule, key+"|go-block-trailing-text", c.pos(rs.Pos()), fmt.Sprintf("%d path(s) write a Go block, each with the text that followed it", n),
+			"ScriptElement.Write: "+bad+": the JavaScript after the block (a line break before the next statement, the blank inside a string literal) disappears when the file is formatted")
+		return true
+	})
+	c.floor(rule, 1)
 }
